@@ -11,6 +11,8 @@
 (*  "root" / "minmax": xl xh (Fix) as given, r returned, oc, tol = the     *)
 (*          object's tolerance (Fix)                                       *)
 (*  "conj": planetary_conjunction / planet_star_conjunction on positions   *)
+(*  "line": planet_stars_in_line (alignment function witnessed at the      *)
+(*          tabular times)                                                 *)
 (*          whose differences follow polynomials pa (RA) and pd (Dec) in n *)
 (* ymax = max(1, max |y|) (Fix) scales the float-noise allowance.          *)
 (***************************************************************************)
@@ -84,7 +86,17 @@ VerdictConj ==
   \cup Viol("CONJUNCTION_RA_DIFFERENCE_ZERO", Le(Abs(PolyEval(Ev.pa, Ev.n0)), Dec(1, 9)))
   \cup Viol("CONJUNCTION_DEC_DIFFERENCE", Within(Ev.dd, PolyEval(Ev.pd, Ev.n0), Dec(1, 9)))
 
+\* planet_stars_in_line: ys = the alignment function at the tabular times (witnessed by the harness), n0 the returned
+\* time.  The table is generated with a sign change between its first and last entry, so a root exists on it:
+\* the helper must return (not raise), inside the table, where the interpolating polynomial of ys vanishes
+VerdictLine ==
+  IF ~SignChange(Ev.ys[1], Ev.ys[Len(Ev.ys)]) THEN {"LINE_TABLE_WITHOUT_SIGN_CHANGE"}
+  ELSE IF Ev.oc # "ok" THEN {"LINE_ROOT_FOUND"}
+  ELSE Viol("LINE_INSIDE_TABLE", Inside(Ev.n0, FromInt(-Ev.half), FromInt(Ev.half)))
+  \cup Viol("LINE_ALIGNMENT_ZERO", Le(Abs(Eval(Coefs(Ev.xq, Ev.ys), Ev.xq, Ev.n0)), Add(Mul(Ev.scale, Dec(1, 9)), Dec(15, 11))))     \* the object's tolerance (1e-10, absolute on the interpolant) x 1.5
+
 Verdict ==
+  IF Ev.k = "line" THEN VerdictLine ELSE
   IF Ev.k = "conj" THEN VerdictConj ELSE
   IF Ev.k \in {"eval", "root", "minmax"} /\ ~(Len(Ev.xq) >= 2 /\ IsAscending(Ev.xq)) THEN {"TABLE_ORDERED"} ELSE
   CASE Ev.k = "tab" -> VerdictTab
